@@ -7,8 +7,17 @@ let canon_entries (t : string) : string =
   String.concat ";" (List.filter (fun e -> e <> "TIMEOUT" && e <> "CLOSED" && e <> "") (split_on ';' t))
 
 (* expected (transcript, hook log) of one connection from the model of handle_connection *)
-let expect_conn ?(max_head = 4096) (proceed : bool) (steps : string) : string * string =
+let expect_conn ?(max_head = 4096) ?(wdead = false) (proceed : bool) (steps : string) : string * string =
   if not proceed then ("|EOF", "S")
+  else if wdead then begin
+    (* the write half of the server's stream is shut down: the first response write fails, the request loop ends with that
+       error and the teardown hook is handed it; nothing reaches the client.  (Generated with a single request.) *)
+    let (maxh, segs, _nr, _closed) = Conn_o.parse_script ("N=" ^ string_of_int max_head ^ ";" ^ steps) in
+    let r = M.serve_conn Conn_o.the_app (nat_of_int maxh) segs in
+    let attempted = r.M.c_resps <> [] in
+    let hooks = "S" ^ (if int_of_nat r.M.c_requests >= 1 then ",P" else "") ^ (if attempted || not r.M.c_ok then ",T(err)" else ",T(ok)") in
+    ("|EOF", hooks)
+  end
   else begin
     let (maxh, segs, _nr, closed) = Conn_o.parse_script ("N=" ^ string_of_int max_head ^ ";" ^ steps) in
     let r = M.serve_conn Conn_o.the_app (nat_of_int maxh) segs in
@@ -34,14 +43,15 @@ let eval case0 impl =
           | None -> c)
        | None -> c)
     else c in
+  let case0 = if String.length case0 > 2 && String.sub case0 0 2 = "B!" then String.sub case0 2 (String.length case0 - 2) else case0 in
   let case = strip case0 in
   let max_head = !max_head in
   (* histories with routes the application model does not have (interim responses): the three modes are compared with each other only *)
   let differential = contains_sub case (hex_of_bytes (bytes_of_string "/cont")) in
   let conns = List.map (fun c -> match String.index_opt c ':' with
-      | Some i -> (String.sub c 0 i <> "X", String.sub c (i + 1) (String.length c - i - 1))
+      | Some i -> (String.sub c 0 i, String.sub c (i + 1) (String.length c - i - 1))
       | None -> failwith "bad conn") (split_on '/' case) in
-  let expected = if differential then [] else List.map (fun (p, s) -> expect_conn ~max_head p s) conns in
+  let expected = if differential then [] else List.map (fun (k, s) -> expect_conn ~max_head ~wdead:(k = "W") (k <> "X") s) conns in
   let exp_line mode =
     Printf.sprintf "mode=%s conns=[%s] returned=1" mode
       (String.concat "|" (List.map (fun (t, h) -> t ^ "#hooks=" ^ h) expected)) in
@@ -79,9 +89,17 @@ let eval case0 impl =
   let transcripts_of (cs, _, _) = List.map fst cs and hooks_of (cs, _, _) = List.map snd cs in
   let mode_ok m = if differential then (let (cs, tail, _) = m in List.length cs = List.length conns && String.trim tail = "returned=1") else mode_ok m in
   let all_same f = (match parsed with a :: rest -> List.for_all (fun p -> f p = f a) rest | [] -> false) in
+  (* the harness's teardown hook writes a 599 response when it is handed an error: the modes must agree on it (raw comparison),
+     the application model does not know it (entries starting with 599 are dropped before the comparison with the model) *)
+  let no599 t =
+    (match String.index_opt t '|' with
+     | Some i -> String.concat ";" (List.filter (fun e -> not (String.length e >= 4 && String.sub e 0 4 = "599,")) (split_on ';' (String.sub t 0 i)))
+                 ^ String.sub t i (String.length t - i)
+     | None -> t) in
+  let no599 t = let u = no599 t in if String.length u > 0 && u.[0] = ';' then u else u in
   let c17 =
     List.length parsed = 3 && List.for_all mode_ok parsed && all_same transcripts_of &&
-    (differential || List.for_all (fun p -> transcripts_of p = List.map fst exp_cs) parsed) in
+    (differential || List.for_all (fun p -> List.map no599 (transcripts_of p) = List.map fst exp_cs) parsed) in
   let hook_shape h = (* S, then P's, then exactly one T(..) *)
     (match split_on ',' h with
      | "S" :: rest -> (match List.rev rest with
